@@ -308,6 +308,9 @@ def oracle(case, out, tail):
             else:
                 if pid != x["pid0"] or (d is not None and d[0] is not None):
                     fails.append({"kind": "unannotated_event_changed", "uid": uid})
+    if len(tail) != len(specs):
+        fails.append({"kind": "input_file_not_ingested", "expected": len(specs), "observed": len(tail)})
+        return fails
     for i, (exp, zero, neg, _) in enumerate(specs):
         if tail[i][0] != zero or tail[i][1] != neg:
             fails.append({"kind": "skip_count", "file": i, "expected": [zero, neg], "observed": tail[i][:2]})
